@@ -5,7 +5,7 @@
      - Spec/Meta.v (extent, bmax as functions of the DSDL type), Spec/Wire.v (ser_spec), Codec/Walker.v (walk_ser).
    No proofs in this file (it is extracted by coq/extraction/ExtractC05.v). *)
 From Coq Require Import List NArith ZArith Bool.
-From Verif Require Import Str Wire Walker MetaC05Base Gen_C05.
+From Verif Require Import Str Wire Walker MetaC05Base MetaC05Rne Gen_C05.
 Import ListNotations.
 Local Open Scope Z_scope.
 
@@ -184,7 +184,11 @@ Definition const_float_value (rf : (Z * Z) -> str) (n d : Z) : option (Z * Z) :=
 
 (* the operands of the division form are rendered only below this bound (2^1023 < dbl_lit_limit: valid double constants) *)
 Definition division_operand_limit : Z := 2 ^ 1023.
-Definition division_rendered (n d : Z) : bool := (Z.abs n <? division_operand_limit) && (d <? division_operand_limit).
+Definition division_rendered (n d : Z) : bool :=
+  match float_rule with
+  | DivIfBelowLimit => (Z.abs n <? division_operand_limit) && (d <? division_operand_limit)
+  | DivIfExactOperands => exact64 n && exact64 d
+  end.
 
 (* what the code did BEFORE the repair of F-FLOAT-LIT-RANGE (commit bc63e58): always the division (hand copy, documentation only) *)
 Definition old_filter_literal_float_expr (value : Z * Z) : str :=
